@@ -190,18 +190,53 @@ def k_history(ctx):
             ctx.check("second-call-G", _eq(ctx, G[i, j], G_m[i, j]))
 
 
+@harness("C17.definite", cases=lambda tier: [(2, 1, True), (2, 1, False)] + ([(2, 2, True)] if tier == "thorough" else []),
+         expect=lambda c: ["S-positive-definite", "S-not-larger-than-Sa", "A-eigenvalues-in-[0,1)"])
+def k_definite(ctx):
+    """n = 2: S is positive definite (leading minors > 0), S_a - S is positive semi-definite (principal
+    minors >= 0), and both eigenvalues of A are real and lie in [0, 1): for the characteristic polynomial
+    l^2 - tr l + det that is  tr^2 >= 4 det,  det >= 0,  tr >= 0,  tr < 2,  1 - tr + det > 0."""
+    n, m, diag = ctx.case
+    K = ctx.real_array("K", (m, n))
+    S_a = _spd(ctx, "Sa", n, diag)
+    S_y = _spd(ctx, "Sy", m, diag) if m <= 2 else _diag_pos(ctx, "Sy", m)
+    if ctx.sym:
+        K, S_a, S_y = [qarray(v) for v in (K, S_a, S_y)]
+    with _env(ctx):
+        S = OC.error_covariance_matrix(K, S_a, S_y)
+        A = OC.averaging_kernel_matrix(K, S_a, S_y)
+    D = S_a - S
+    detS = S[0, 0] * S[1, 1] - S[0, 1] * S[1, 0]
+    detD = D[0, 0] * D[1, 1] - D[0, 1] * D[1, 0]
+    tr = A[0, 0] + A[1, 1]
+    det = A[0, 0] * A[1, 1] - A[0, 1] * A[1, 0]
+    tol = 0 if ctx.sym else 1e-9
+    ctx.check("S-positive-definite", S[0, 0] > 0)
+    ctx.check("S-positive-definite", detS > 0)
+    ctx.check("S-not-larger-than-Sa", D[0, 0] >= -tol)
+    ctx.check("S-not-larger-than-Sa", D[1, 1] >= -tol)
+    ctx.check("S-not-larger-than-Sa", detD >= -tol)
+    ctx.check("A-eigenvalues-in-[0,1)", tr * tr - 4 * det >= -tol)
+    ctx.check("A-eigenvalues-in-[0,1)", det >= -tol)
+    ctx.check("A-eigenvalues-in-[0,1)", tr >= -tol)
+    ctx.check("A-eigenvalues-in-[0,1)", tr < 2)
+    ctx.check("A-eigenvalues-in-[0,1)", 1 - tr + det > 0)
+
+
 PLAN = {
-    "quick": {"harnesses": ["C17.identities", "C17.scalar-bounds", "C17.history"],
+    "quick": {"harnesses": ["C17.identities", "C17.scalar-bounds", "C17.history", "C17.definite"],
               "opts": {"query_timeout_ms": 15000}},
-    "thorough": {"harnesses": ["C17.identities", "C17.scalar-bounds", "C17.history"],
+    "thorough": {"harnesses": ["C17.identities", "C17.scalar-bounds", "C17.history", "C17.definite"],
                  "opts": {"query_timeout_ms": 60000}},
 }
 BOUNDS = {"quick": {"shapes (n, m)": "(1,1), (1,2), (2,1), (2,2) with full symmetric SPD covariances (and (2,2) with diagonal ones); all real K incl. zero / rank deficient",
-                    "scalar bounds": "n = 1, m <= 2"},
+                    "scalar bounds": "n = 1, m <= 2",
+                    "definiteness / eigenvalues": "n = 2, m = 1 with full and diagonal S_a: S positive definite, S_a - S positive semi-definite, "
+                                                  "both eigenvalues of A real and in [0, 1)"},
           "thorough": {"shapes (n, m)": "adds (1,3), (3,1), (2,3), (3,2), (3,3) with diagonal covariances",
-                       "scalar bounds": "n = 1, m <= 3"}}
+                       "scalar bounds": "n = 1, m <= 3", "definiteness / eigenvalues": "adds (2,2) with diagonal covariances"}}
 OUTSIDE = ["state or measurement dimension > 2 (3 with diagonal covariances; full 2x2 with diagonal 3x3 did not return from the solver within 280 s and is not claimed)",
-           "eigenvalue / limit statements for n >= 2", "LAPACK's numerical inverse (replaced by the exact adjugate inverse)",
+           "eigenvalue statements for n >= 3 and for n = 2 with full 2x2 S_y or m = 3 (solver answers unknown or hangs); the limit statements (vanishing noise / prior variance)", "LAPACK's numerical inverse (replaced by the exact adjugate inverse)",
            "conditioning / floating point"]
 STUBS = ["scipy.linalg.inv -> exact adjugate inverse on rational-function scalars (LinAlgError when the determinant can be zero)"]
 ASSUMPTIONS = ["S_a, S_y symmetric with positive leading minors (Sylvester)", "exact real arithmetic"]
